@@ -363,6 +363,12 @@ func vfC14RefMut(nmax, lmax int) {
 // outside: L>3; lower-case residues, U, X . * in nucleotide sequences (compatibility of non-IUPAC symbols not documented); codon-wise list (aa=true)
 func H_C14_refmut() { vfC14RefMut(2, 3) }
 
+// H_C14_refmut_deep: as H_C14_refmut with 4 columns (two separate insertions, insertion between two substitutions).
+// bounds: n<=2 rows, L<=4 columns, residue sets as in H_C14_refmut
+// outside: L>4
+//verif: tier=thorough
+func H_C14_refmut_deep() { vfC14RefMut(2, 4) }
+
 // H_C14_refmut_len: sequences of different lengths are an error for both functions.
 // bounds: two sequences of lengths 0..2, upper-case IUPAC residues, both alphabets
 // outside: longer sequences
